@@ -40,7 +40,7 @@ META = {
     "rule": "4-20 packets per run: 1-40 bytes (1/2/3 over-represented), byte period/gap patterns, pre/post, idle 1-9; 0-3 strobes per "
             "packet at literal positions",
 }
-TIERS = {"quick": {"runs": 16000, "wall": 70}, "thorough": {"runs": 250000, "wall": 900}}
+TIERS = {"quick": {"runs": 32000, "wall": 70}, "thorough": {"runs": 250000, "wall": 900}}
 
 
 def gen(rng, tier, index):
